@@ -26,9 +26,12 @@ pub fn scenarios(thorough: bool) -> Vec<Scenario> {
         Scenario { name: "incremental-mixed", before: base.clone(), mutate: s(&["set ka AAAA", "remove kb", "set ng 3333", "increment cnt 5"]), snap: "snapshot false one".into(), reclaim: false },
         Scenario { name: "reclaim-mixed", before: base.clone(), mutate: s(&["set ka AAAA", "remove kb", "set ng 3333"]), snap: "snapshot true one".into(), reclaim: true },
         Scenario { name: "reclaim-no-change", before: base.clone(), mutate: vec![], snap: "snapshot true one".into(), reclaim: true },
+        // a value larger than the writer's buffer goes to the values file before its key record is redirected
+        Scenario { name: "incremental-large-update", before: base.clone(), mutate: vec![format!("set ka {}", big), "set kc CCCC".into()], snap: "snapshot false one".into(), reclaim: false },
+        // ... and nothing but such values: here a key must never point at bytes that are not in the values file yet
+        Scenario { name: "incremental-only-large-updates", before: base.clone(), mutate: vec![format!("set ka {}", big), format!("set kc {}", "C".repeat(700))], snap: "snapshot false one".into(), reclaim: false },
     ];
     if thorough {
-        v.push(Scenario { name: "incremental-large-update", before: base.clone(), mutate: vec![format!("set ka {}", big), "set kc CCCC".into()], snap: "snapshot false one".into(), reclaim: false });
         v.push(Scenario { name: "incremental-large-new", before: base.clone(), mutate: vec![format!("set nh {}", big), "set ni 4".into(), "set ka AAAA".into()], snap: "snapshot false one".into(), reclaim: false });
         v.push(Scenario { name: "reclaim-large", before: base.clone(), mutate: vec![format!("set ka {}", big), "remove kc".into()], snap: "snapshot true one".into(), reclaim: true });
         let two = s(&["create-db one t1", "create-db two t2 arbiter", "use-db one t1", "set ka aaaa", "set kb bbbb", "use-db two t2", "set za zzzz", "snapshot false one|two"]);
@@ -195,6 +198,7 @@ pub fn run(tier: &str) -> i32 {
                     }
                 }
                 if let Some((failure, detail)) = verdict {
+                    let raw_failure = failure.clone();
                     // collapse to four outcome classes (which key is hit depends on hash-map order)
                     let failure = if failure.starts_with("restart-fails") {
                         "restart-fails"
@@ -209,7 +213,13 @@ pub fn run(tier: &str) -> i32 {
                     } else {
                         "key-holds-a-pair-that-was-never-stored"
                     };
-                    let sig = json!({"check": "crash", "snapshot": if sc.reclaim {"reclaim"} else {"incremental"}, "killed_before": format!("{}:{}", killed_call.kind, killed_call.role), "structural_done": done, "failure": failure});
+                    // where every written value exceeds the writer's buffer, a value is in the file before its key record
+                    // points at it: a loaded value that is neither the old nor the new one is not the known two-step update
+                    let sig = if sc.name == "incremental-only-large-updates" && raw_failure == "value-never-stored" {
+                        json!({"check": "crash", "snapshot": "incremental", "killed_before": format!("{}:{}", killed_call.kind, killed_call.role), "structural_done": done, "failure": "key-holds-a-value-it-never-had", "every_written_value_exceeds_the_writer_buffer": true})
+                    } else {
+                        json!({"check": "crash", "snapshot": if sc.reclaim {"reclaim"} else {"incremental"}, "killed_before": format!("{}:{}", killed_call.kind, killed_call.role), "structural_done": done, "failure": failure})
+                    };
                     v.report(sig, json!({"scenario": sc.name, "mutate": sc.mutate, "inject": format!("{}:when={}", p.kind, p.ordinal), "killed_on_entry_to": killed_call.line,
                         "window_calls_completed": calls[b + 1..calls.len() - 1].iter().map(|c| c.line.clone()).collect::<Vec<_>>(), "detail": detail, "old_image": old, "being_written": new}));
                 }
